@@ -1335,3 +1335,20 @@ benign_patch("refactor_s8_12", "benign/set8_refactor12.diff", note='Drop for DB:
 benign_patch("refactor_s8_13", "benign/set8_refactor13.diff", note='skip_empty_data_blocks_*: if let Some')
 benign_patch("refactor_s8_14", "benign/set8_refactor14.diff", note='finish_compaction_output_file: immutable match expression')
 benign_patch("refactor_s8_15", "benign/set8_refactor15.diff", note='apply_changes tail: if let Some(..) = front()')
+
+# ---- round 5 wave 1
+mut("release_version_pops_front", ["C03", "C11", "C05"], "OWN-12", patch="release_version_pops_front.diff")
+mut("backward_state_updated_for_invisible_records", ["C03", "C04"], "ITR-1", patch="backward_state_updated_for_invisible_records.diff")
+mut("backward_cache_refreshed_conditionally", ["C04", "C03"], "ITR-1", patch="backward_cache_refreshed_conditionally.diff")
+mut("write_result_shadowed", ["C05", "C08"], "PAIR-2", patch="write_result_shadowed.diff", note="a failed WAL append is acknowledged with Ok to the whole group")
+mut("forward_delete_does_not_turn_skipping_on", ["C04", "C03"], "ITR-2", file="src/iterator.rs",
+    old="""                        is_skipping = true;
+
+                        let current_user_key =""",
+    new="""                        let current_user_key =""")
+mut("forward_shadowed_put_with_equal_key_yielded", ["C04", "C03"], "ITR-2", file="src/iterator.rs",
+    old="""                            && current_key.get_user_key() <= self.cached_user_key.as_ref().unwrap()""",
+    new="""                            && current_key.get_user_key() < self.cached_user_key.as_ref().unwrap()""")
+mut("backward_leaves_key_on_equal_user_key", ["C04", "C03"], "ITR-1", file="src/iterator.rs",
+    old="""                        && current_key.get_user_key() < self.cached_user_key.as_ref().unwrap()""",
+    new="""                        && current_key.get_user_key() <= self.cached_user_key.as_ref().unwrap()""")
